@@ -92,10 +92,22 @@ def run(R):
             R.check(okk, 'C12.R2', 'poll:into_http-on-status-kind', site(pl, bb), 'guards: %r' % [(v, show(tm)[:60]) for s, v, tm in g])
             a = pl.origin(t['args'][0])
             R.check(term_contains(a, lambda x: is_call(x, name='take')), 'C12.R2', 'poll:takes-stored-status', site(pl, bb), 'status = %s' % show(a)[:120])
-        em = pl.calls(name='empty')
+        # the rejected call's response = the head produced by Status::into_http with an empty body:
+        #   from_parts(into_http(..).into_parts().0, ResponseBody::empty())   or   into_http(..).map(|()| ResponseBody::empty())
+        fam = [pl] + [c_ for c_ in tonic.bodies if c_.kind == 'closure' and c_.path.startswith(pl.path + '::')] + [c_ for c_ in tonic.bodies if c_.kind == 'closure' and any(c_.path.startswith(h_ + '::') for h_ in tonic.inlined_helpers)]
+        em = [(c_, bb_) for c_ in fam for bb_, t_ in c_.calls(name='empty') if 'ResponseBody' in (t_.get('fn') or '') + str(t_.get('ga'))]
         fp = pl.calls(name='from_parts')
-        R.check(len(em) == 1 and len(fp) == 1 and term_contains(pl.origin(fp[0][1]['args'][1]), lambda x: is_call(x, name='empty')) and term_contains(pl.origin(fp[0][1]['args'][0]), lambda x: is_call(x, pat='Status::into_http')),
-                'C12.R2', 'poll:parts+empty-body', site(pl), 'response = from_parts(into_http parts, ResponseBody::empty())')
+        okb = False
+        if len(fp) == 1:
+            okb = term_contains(pl.origin(fp[0][1]['args'][1]), lambda x: is_call(x, name='empty')) and term_contains(pl.origin(fp[0][1]['args'][0]), lambda x: is_call(x, pat='Status::into_http'))
+        else:
+            for bb_, t_ in pl.calls(name='map'):
+                if 'Response' in (t_.get('fn') or '') and is_call(strip_refs(pl.origin(t_['args'][0])), pat='Status::into_http'):
+                    clo = strip_refs(pl.origin(t_['args'][1]))
+                    if clo[0] == 'agg' and 'def' in clo[1]:
+                        cb_ = [y for y in tonic.bodies if y.path == clo[1]['def']]
+                        okb = bool(cb_) and all(is_call(strip_refs(x_), name='empty') for _, x_ in mirlib.returned_terms(cb_[0]))
+        R.check(len(em) == 1 and okb, 'C12.R2', 'poll:parts+empty-body', site(pl), 'response = the head of Status::into_http with ResponseBody::empty() (empty() sites %d)' % len(em))
         polls = pl.calls(pat='Future::poll')
         for bb, t in polls:
             g = pl.edge_guards(bb)
